@@ -1,17 +1,22 @@
 use crate::rt::synchronize::Synchronize;
 use crate::rt::thread;
-use std::{any::Any, collections::HashMap};
+use std::{
+    any::Any,
+    collections::{BTreeMap, HashMap},
+};
 
 pub(crate) struct Set {
     /// Registered statics.
-    statics: Option<HashMap<StaticKeyId, StaticValue>>,
+    // An ordered map: the values are dropped in iteration order at the end of
+    // the execution, and their destructors may perform loom operations.
+    statics: Option<BTreeMap<StaticKeyId, StaticValue>>,
 
     /// Statics whose initialiser is currently running, with the threads that
     /// wait for it to finish.
     initializing: HashMap<StaticKeyId, Vec<thread::Id>>,
 }
 
-#[derive(Eq, PartialEq, Hash, Copy, Clone)]
+#[derive(Eq, PartialEq, Ord, PartialOrd, Hash, Copy, Clone)]
 pub(crate) struct StaticKeyId(usize);
 
 pub(crate) struct StaticValue {
@@ -23,7 +28,7 @@ impl Set {
     /// Create an empty statics set.
     pub(crate) fn new() -> Set {
         Set {
-            statics: Some(HashMap::new()),
+            statics: Some(BTreeMap::new()),
             initializing: HashMap::new(),
         }
     }
@@ -33,7 +38,7 @@ impl Set {
             self.statics.is_none(),
             "lazy_static was not dropped during execution"
         );
-        self.statics = Some(HashMap::new());
+        self.statics = Some(BTreeMap::new());
         self.initializing.clear();
     }
 
@@ -67,7 +72,7 @@ impl Set {
             .unwrap_or_default()
     }
 
-    pub(crate) fn drop(&mut self) -> HashMap<StaticKeyId, StaticValue> {
+    pub(crate) fn drop(&mut self) -> BTreeMap<StaticKeyId, StaticValue> {
         self.statics
             .take()
             .expect("lazy_statics were dropped twice in one execution")
@@ -94,7 +99,7 @@ impl Set {
             .expect("attempted to access lazy_static during shutdown")
             .entry(StaticKeyId::new(key));
 
-        if let std::collections::hash_map::Entry::Occupied(_) = v {
+        if let std::collections::btree_map::Entry::Occupied(_) = v {
             unreachable!("told to init static, but it was already init'd");
         }
 
